@@ -184,6 +184,21 @@ class EngineAI:
         self.alltypes = frozenset(self.objmap)
         self.fields = {t: set(self.pie.fields(c)) for t, c in self.objmap.items()}
         self.unresolved = {}     # root handler -> guards on tracked objects the analysis could not read
+        # engine fields that are named constants: stored exactly once in the class, in __init__, with an enumeration member or a display of them
+        self.init_consts = {}
+        _stores = {}
+        for _f in self.m.cls.body:
+            if isinstance(_f, ast.FunctionDef):
+                for _n in walk_local(_f):
+                    if is_self_attr(_n) and isinstance(_n.ctx, (ast.Store, ast.Del)):
+                        _stores.setdefault(_n.attr, []).append(_f.name)
+        _init = [f_ for f_ in self.m.cls.body if isinstance(f_, ast.FunctionDef) and f_.name == '__init__']
+        for _n in (walk_local(_init[0]) if _init else ()):
+            if isinstance(_n, ast.Assign) and len(_n.targets) == 1 and is_self_attr(_n.targets[0]) and _stores.get(_n.targets[0].attr) == ['__init__']:
+                _v = _n.value
+                _w = _v.args[0] if isinstance(_v, ast.Call) and call_name(_v) in ('frozenset', 'tuple', 'set', 'list') and len(_v.args) == 1 and not _v.keywords else _v
+                if enum_member(_w) or (isinstance(_w, (ast.Tuple, ast.List, ast.Set)) and _w.elts and all(enum_member(x_) for x_ in _w.elts)):
+                    self.init_consts[_n.targets[0].attr] = _w
         # objects that came out of a query never ran __init__
         self.loaded_fields = {t: set(self.pie.loaded_fields(c)) for t, c in self.objmap.items()}
         self.allnames = self.pol.names
@@ -963,6 +978,10 @@ class Interp:
             return st
         if isinstance(test, ast.Compare) and len(test.ops) == 1:
             l, op, r = test.left, test.ops[0], test.comparators[0]
+            if is_self_attr(r) and r.attr in ai.init_consts:
+                r = ai.init_consts[r.attr]
+            if is_self_attr(l) and l.attr in ai.init_consts:
+                l = ai.init_consts[l.attr]
             # the revocation reason of this request: every comparison with RevocationReasonCode members narrows the set of reasons
             # possible on the path (recorded with each state store: COMPROMISED only under the compromise reasons)
             rset = None
